@@ -76,6 +76,9 @@ def ptm(e, top=False):
         return "." + e[1]
     if k == "la":
         return "(?= " + " & ".join(("!" if neg else "") + nt for nt, neg in e[1]) + ")"
+    if k == "setx":
+        from vlib import setref
+        return "set(" + setref.ptm_set(e[1]) + ")"
     if k == "alias":
         return ptm(e[2]) + "[" + e[1] + "]"
     if k == "act":
@@ -102,6 +105,9 @@ def print_tm(g, opts=None):
         body.append("%s%s :\n    %s\n;" % (name, (" {%s}" % ty) if ty else "", "\n  | ".join(rows)))
     gg = dict(g)
     gg["body"] = "\n".join(body)
+    if g.get("named_sets"):
+        from vlib import setref
+        gg["extra"] = (gg.get("extra") or "") + "\n".join("%%generate %s = set(%s);" % (n, setref.ptm_set(e)) for n, e in g["named_sets"])
     return grammars.print_tm(gg, opts)
 
 
@@ -129,6 +135,10 @@ def pgo(e, symid, ntidx):
         return "verifMarker()"
     if k == "la":
         return "verifLook([]int{%s}, []bool{%s})" % (", ".join(str(ntidx[nt]) for nt, _ in e[1]), ", ".join("true" if neg else "false" for _, neg in e[1]))
+    if k == "setx":
+        vals = symid["#setvalues"]
+        v = vals.pop(0)
+        return "verifSetOf(%s)" % ", ".join(str(symid[t]) for t in v)
     if k == "alias":
         return "verifAlias(%s, %s)" % (json.dumps(e[1]), pgo(e[2], symid, ntidx))
     if k == "act":
@@ -139,16 +149,22 @@ def pgo(e, symid, ntidx):
 def data_file(g, meta, pkgname):
     symid = {name: i for i, name in enumerate(meta["syms"])}
     ntidx = {name: i for i, (name, _) in enumerate(g["nts"])}
+    if g.get("uses_sets"):
+        from vlib import setref
+        vals, named = setref.evaluate(g, meta["syms"][:meta["num_tokens"]])
+        symid["#setvalues"] = list(vals)
+        g["_ref_named_sets"] = named
     terms = [symid[t] for t in g["terms"] if not g.get("input_terms") or t in g["input_terms"]]
     L = ["package " + pkgname, "", "// printed by vlib/extgram.py from corpus grammar %s" % g["name"], ""]
     L.append("var verifTerms = []int32{%s}" % ", ".join(map(str, terms)))
-    uses_la = "verifLook(" in "".join(pgo(e, symid, ntidx) for _, alts in g["nts"] for e, _ in alts)
+    rendered = {id(e): pgo(e, symid, ntidx) for _, alts in g["nts"] for e, _ in alts}
+    uses_la = "verifLook(" in "".join(rendered.values())
     L.append("const verifUsesLookaheads = %s" % ("true" if uses_la else "false"))
     L.append("var verifBodies []*verifNode")
     L.append("var verifRuleArrow [][]int")
     L.append("func verifSetup() {\n\tif verifBodies != nil {\n\t\treturn\n\t}")
     for name, alts in g["nts"]:
-        L.append("\tverifBodies = append(verifBodies, verifAlt(%s))" % ", ".join(pgo(e, symid, ntidx) for e, _ in alts))
+        L.append("\tverifBodies = append(verifBodies, verifAlt(%s))" % ", ".join(rendered[id(e)] for e, _ in alts))
         L.append("\tverifRuleArrow = append(verifRuleArrow, []int{%s})" % ", ".join(("int(%s)" % a) if a else "0" for _, a in alts))
     L.append("}")
     L.append("var verifInputs = []struct {\n\tnt    int\n\tnoeoi bool\n}{%s}" % ", ".join(
@@ -304,3 +320,27 @@ EXTACT_RAW = [
 ]
 
 EXTACT = [typed(g) for g in EXTACT_RAW]
+
+
+def SX(e):
+    return ("setx", e)
+
+
+# token sets (C15): set(...) inside rules and %generate sets; every set is evaluated by vlib/setref.py
+EXTSETS = [
+    EG("s01", "abcd", ["Sx"], [("Sx", [(S(N("Ax"), SX(("first", "Bx")), N("Bx")), "R")]), ("Ax", [(seq("a"), None), (seq("b", "Ax"), None)]), ("Bx", [(seq("c"), None), (seq("d", "c"), None)])],
+       uses_sets=True, named_sets=[("firstA", ("first", "Ax")), ("followA", ("follow", "Ax")), ("lastB", ("last", "Bx"))]),
+    EG("s02", "abcd", ["Sx"], [("Sx", [(S(T("a"), L(SX(("and", [("not", ("any", "a")), ("not", ("any", "eoi")), ("not", ("any", "invalid_token"))])), False), T("a")), "R")])],
+       uses_sets=True, named_sets=[("notA", ("not", ("any", "a")))]),
+    EG("s03", "abcde", ["Sx"], [("Sx", [(S(N("Px"), T("e"), N("Qx")), "R")]), ("Px", [(S(N("Ix")), None), (S(N("Px"), T("c"), N("Ix")), None)]), ("Ix", [(seq("a", "b"), None), (seq("b"), None)]),
+                                 ("Qx", [(S(SX(("precede", "Ix")), T("d")), None), (S(T("d"), SX(("follow", "Ix"))), None)])],
+       uses_sets=True, named_sets=[("precI", ("precede", "Ix")), ("follI", ("follow", "Ix")), ("anyP", ("any", "Px")), ("lastP", ("last", "Px")),
+                                   ("mix", ("or", [("ref", "precI"), ("and", [("ref", "anyP"), ("not", ("first", "Ix"))])]))]),
+    # a set that feeds its own definition: precede Ix is taken through the very set(...) occurrence that uses it. The least solution is empty;
+    # the compiler treats the set occurrence as nullable while resolving and answers {b, c} (KNOWN_FINDINGS.txt)
+    EG("s05", "abcd", ["Sx"], [("Sx", [(S(N("Lx"), T("d")), "R")]), ("Lx", [(S(N("Ix")), None), (S(N("Lx"), SX(("precede", "Ix")), N("Ix")), None)]), ("Ix", [(seq("a", "b"), None), (seq("c"), None)])],
+       uses_sets=True, known="set-occurrence-treated-as-nullable"),
+    EG("s04", "abcd", ["Sx"], [("Sx", [(S(O(T("a")), N("Nx"), T("c"), N("Tx")), "R")]), ("Nx", [(("seq", []), None), (seq("b", "Nx"), None)]),
+                                ("Tx", [(S(SX(("follow", "Nx")), T("a")), None), (S(SX(("and", [("not", ("first", "Sx")), ("not", ("any", "eoi")), ("not", ("any", "invalid_token"))]))), None)])],
+       uses_sets=True, named_sets=[("follN", ("follow", "Nx")), ("firstN", ("first", "Nx")), ("firstS", ("first", "Sx")), ("comp", ("not", ("or", [("ref", "follN"), ("ref", "firstN")])))]),
+]
